@@ -236,7 +236,7 @@ func init() {
 		Rule: "rot: fake Resolver returning 1..4 loopback addresses whose endpoints accept / refuse (bound, not listening) / hang (full backlog), every accept/refuse pattern, " +
 			"rotation counter left natural or set through an exported setter to values around multiples of n and around 2^32 (wrap-around), 1..3 consecutive dials; " +
 			"to: timeout paths (deadline already passed, hanging connect, timer while waiting for a slot, waiting 3.6 s for the only slot and THEN hanging in connect - the timeout still counts from the call, hanging resolver) with and without DNS resolution; " +
-			"sem: Concurrency N in 1..3 with N hanging dials holding every slot, further dials to an accepting endpoint that must time out without connecting, waiters that must get the freed slots. " +
+			"sem: every combination of DisableDNSResolution x DNSCacheDuration zero/set x LocalAddr x Resolver nil/fake, Concurrency N in 1..3 with N hanging dials holding every slot, further dials to an accepting endpoint that must time out without connecting, waiters that must get the freed slots. " +
 			"non-trivial = rotation over >=2 addresses with a refusing one / any sem or timeout scenario; distinct = distinct input",
 		Parallel:   true,
 		Exhaustive: func(t string) bool { return false },
@@ -385,11 +385,21 @@ func init() {
 					lo, hi = 0, c41Slack
 					line = Line("trydial", B("1"), B("1"), B("i"), B("c"))
 				case "semwait":
-					d, _, _ := mk(1, "x", 0, false)
-					d.DisableDNSResolution = true
-					hangAddr := fmt.Sprintf("%s:%d", c41IP(0), hg.port)
-					accAddr := fmt.Sprintf("%s:%d", c41IP(0), ag.port)
-					wantUp = accAddr
+					d := &fasthttp.TCPDialer{Concurrency: 1}
+					o := (ms % 4) << 1 // DNSCacheDuration / LocalAddr vary with the case
+					if via == "nodns" {
+						o |= 1
+					} else if ms%8 >= 4 {
+						o |= 8
+					}
+					addrOf, optDesc := c41Apply(d, o)
+					defer d.FlushDNSCache()
+					hangUp := fmt.Sprintf("%s:%d", c41IP(0), hg.port)
+					hangAddr := addrOf("hang", hg.port)
+					accAddr := addrOf("acc", ag.port)
+					wantUp = fmt.Sprintf("%s:%d", c41IP(0), ag.port)
+					// one completed dial first: whatever dial() sets up lazily exists from here on
+					c41Dial(func() (net.Conn, error) { return d.DialTimeout(accAddr, 2*time.Second) }, 7*time.Second)
 					hold := T + 1500*time.Millisecond
 					holder := make(chan c41Result, 1)
 					go func() {
@@ -404,13 +414,16 @@ func init() {
 					}
 					r = c41Dial(func() (net.Conn, error) { return d.DialTimeout(accAddr, T) }, T+5*time.Second)
 					h := <-holder
+					if _, capacity := fasthttp.VerifTCPDialerSem(d); !okHeld && capacity == 0 {
+						okHeld = true // no semaphore exists at all: nothing can be waiting for a slot, the first dial is in progress
+					}
 					if !okHeld || h.end.Before(r.end) {
 						return nil // the slot was not held for the whole wait: not the scenario (machine stalled)
 					}
 					if r.class == "conn" {
-						extra = &Verdict{VSpec, "dial-beyond-concurrency", "Concurrency=1: a second dial connected while the first was still in progress"}
+						extra = &Verdict{VSpec, "dial-beyond-concurrency", fmt.Sprintf("TCPDialer{Concurrency=1, %s}: a second dial connected while the first was still in progress", optDesc)}
 					}
-					if h.class != "timeout" || h.upstream != hangAddr {
+					if h.class != "timeout" || h.upstream != hangUp {
 						extra = &Verdict{VSpec, "hanging-dial-wrong-error", fmt.Sprintf("hanging dial returned %s upstream %q", h.class, h.upstream)}
 					}
 					if l, _ := fasthttp.VerifTCPDialerSem(d); l != 0 && extra == nil {
@@ -514,8 +527,12 @@ func init() {
 						return Verdict{VCorr, "hang-endpoint-unavailable", "could not build a hanging endpoint on loopback"}
 					}}
 				}
+				opts := 1
+				if len(a) >= 4 {
+					opts, _ = strconv.Atoi(string(a[3]))
+				}
 				for try := 0; try < 2; try++ {
-					c := c41Sem(N_, E, Wn, hg, time.Duration(1200+try*1500)*time.Millisecond)
+					c := c41Sem(N_, E, Wn, hg, time.Duration(1200+try*1500)*time.Millisecond, opts&15)
 					if c != nil {
 						return c
 					}
@@ -570,17 +587,59 @@ func init() {
 				emit("to", B("waithang"), N(1), B("dns"))
 			}
 			for i := 0; i < 6*mult; i++ {
-				emit("sem", N(1+r.Intn(3)), N(1+r.Intn(3)), N(r.Intn(4)))
+				emit("sem", N(1+r.Intn(3)), N(1+r.Intn(3)), N(r.Intn(4)), N(r.Intn(16)))
 			}
-			emit("sem", N(1), N(2), N(2))
-			emit("sem", N(3), N(2), N(4))
+			emit("sem", N(1), N(2), N(2), N(1))
+			emit("sem", N(3), N(2), N(4), N(0))
+			// the concurrency bound under every combination of the dialer's options
+			for opts := 0; opts < 16; opts++ {
+				emit("sem", N(1+opts%3), N(1+r.Intn(2)), N(r.Intn(3)), N(opts))
+			}
 		},
 	})
 }
 
+// c41Apply configures a dialer from an option mask and maps an endpoint on 127.0.1.1 to the address string to dial:
+//   bit 0: DisableDNSResolution (dial the IP literal)     bit 1: DNSCacheDuration set (10 min) instead of zero
+//   bit 2: LocalAddr set (127.0.0.1, any port)             bit 3: Resolver nil (net.DefaultResolver on the IP literal) instead of the fake
+func c41Apply(d *fasthttp.TCPDialer, opts int) (addrOf func(host string, port int) string, desc string) {
+	var parts []string
+	if opts&1 != 0 {
+		d.DisableDNSResolution = true
+		parts = append(parts, "DisableDNSResolution")
+	}
+	if opts&2 != 0 {
+		d.DNSCacheDuration = 10 * time.Minute
+		parts = append(parts, "DNSCacheDuration=10m")
+	}
+	if opts&4 != 0 {
+		d.LocalAddr = &net.TCPAddr{IP: net.ParseIP("127.0.0.1")}
+		parts = append(parts, "LocalAddr=127.0.0.1")
+	}
+	literal := opts&1 != 0
+	if opts&8 != 0 {
+		parts = append(parts, "Resolver=nil")
+		literal = true
+	} else {
+		d.Resolver = c41Resolver{n: 1}
+		if opts&1 == 0 {
+			parts = append(parts, "Resolver=fake")
+		}
+	}
+	if len(parts) == 0 {
+		parts = []string{"defaults"}
+	}
+	return func(host string, port int) string {
+		if literal {
+			return fmt.Sprintf("%s:%d", c41IP(0), port)
+		}
+		return fmt.Sprintf("%s.test:%d", host, port)
+	}, strings.Join(parts, ",")
+}
+
 // c41Sem runs the concurrency scenario; nil = the timing assumptions of the scenario did not hold (retry).
-func c41Sem(n, e, wn int, hg *c41Group, hold time.Duration) *Case {
-	l, err := net.Listen("tcp4", "127.0.0.1:0")
+func c41Sem(n, e, wn int, hg *c41Group, hold time.Duration, opts int) *Case {
+	l, err := net.Listen("tcp4", c41IP(0)+":0")
 	if err != nil {
 		return nil
 	}
@@ -596,9 +655,21 @@ func c41Sem(n, e, wn int, hg *c41Group, hold time.Duration) *Case {
 			c.Close()
 		}
 	}()
-	accAddr := l.Addr().String()
-	hangAddr := fmt.Sprintf("%s:%d", c41IP(0), hg.port)
-	d := &fasthttp.TCPDialer{Concurrency: n, DisableDNSResolution: true}
+	accUp := l.Addr().String()
+	hangUp := fmt.Sprintf("%s:%d", c41IP(0), hg.port)
+	d := &fasthttp.TCPDialer{Concurrency: n}
+	addrOf, optDesc := c41Apply(d, opts)
+	defer d.FlushDNSCache()
+	accAddr := addrOf("acc", l.Addr().(*net.TCPAddr).Port)
+	hangAddr := addrOf("hang", hg.port)
+	// one completed dial first: whatever dial() sets up lazily exists from here on
+	first := c41Dial(func() (net.Conn, error) { return d.DialTimeout(accAddr, 2*time.Second) }, 7*time.Second)
+	if first.class == "conn" {
+		// the accept loop counts the connection a moment after connect() returned
+		for t0 := time.Now(); atomic.LoadInt64(&accepted) < 1 && time.Since(t0) < 5*time.Second; time.Sleep(time.Millisecond) {
+		}
+	}
+	baseline := atomic.LoadInt64(&accepted)
 	var maxSem int64
 	stopSample := make(chan struct{})
 	var sampler sync.WaitGroup
@@ -631,12 +702,19 @@ func c41Sem(n, e, wn int, hg *c41Group, hold time.Duration) *Case {
 			break
 		}
 	}
+	noSem := false
 	if !held {
-		stop()
-		for i := 0; i < n; i++ {
-			<-hangers
+		if _, capacity := fasthttp.VerifTCPDialerSem(d); capacity == 0 {
+			// there is no semaphore at all although Concurrency = n > 0 and a dial has completed: no call can be waiting
+			// for a slot, so every dial that has not returned is in progress — carry on and let the endpoints tell
+			noSem = true
+		} else {
+			stop()
+			for i := 0; i < n; i++ {
+				<-hangers
+			}
+			return nil
 		}
-		return nil
 	}
 	// waiters: long timeout, must get the slots the hanging dials free
 	waitT := hold + 2500*time.Millisecond
@@ -651,7 +729,8 @@ func c41Sem(n, e, wn int, hg *c41Group, hold time.Duration) *Case {
 	for i := 0; i < e; i++ {
 		extras = append(extras, c41Dial(func() (net.Conn, error) { return d.DialTimeout(accAddr, 120*time.Millisecond) }, 6*time.Second))
 	}
-	acceptedWhileHeld := atomic.LoadInt64(&accepted)
+	time.Sleep(20 * time.Millisecond) // let the accept loop count anything that did connect
+	acceptedWhileHeld := atomic.LoadInt64(&accepted) - baseline
 	lastExtra := time.Now()
 	var hs, ws []c41Result
 	for i := 0; i < n; i++ {
@@ -702,30 +781,36 @@ func c41Sem(n, e, wn int, hg *c41Group, hold time.Duration) *Case {
 		return sb.String()
 	}
 	impl := fmt.Sprintf("ok sem=%d max=%d %s%s%s", semEnd, atomic.LoadInt64(&maxSem), cls(hs), cls(ws), cls(extras))
-	what := fmt.Sprintf("Concurrency=%d, %d hanging dials (timeout %v), %d waiting dials, %d short dials", n, n, hold, wn, e)
-	return &Case{Lines: []string{Line("dialsem", toks...)}, Impl: impl, Nontrivial: true, Tags: []string{"sem", fmt.Sprintf("sem-N%d", n)},
+	what := fmt.Sprintf("TCPDialer{Concurrency=%d, %s}: %d hanging dials (timeout %v), %d waiting dials, %d short dials", n, optDesc, n, hold, wn, e)
+	if noSem {
+		what += " [no dial semaphore exists after a completed dial]"
+	}
+	return &Case{Lines: []string{Line("dialsem", toks...)}, Impl: impl, Nontrivial: true, Tags: []string{"sem", fmt.Sprintf("sem-N%d", n), "opts-" + optDesc},
 		Judge: func(rep []string) Verdict {
+			if first.class != "conn" {
+				return Verdict{VSpec, "plain-dial-failed", fmt.Sprintf("%s: the first dial to the accepting endpoint returned %s (%s)", what, first.class, first.upstream)}
+			}
 			for _, r := range append(append(append([]c41Result{final}, hs...), ws...), extras...) {
 				if v := c41Wrapped(r, what); v != nil {
 					return *v
 				}
 			}
 			if acceptedWhileHeld != 0 {
-				return Verdict{VSpec, "dial-beyond-concurrency", fmt.Sprintf("%s: %d connection(s) reached the accepting endpoint while all %d slots were held by hanging dials", what, acceptedWhileHeld, n)}
+				return Verdict{VSpec, "dial-beyond-concurrency", fmt.Sprintf("%s: %d connection(s) reached the accepting endpoint while %d hanging dials were in progress", what, acceptedWhileHeld, n)}
 			}
 			if m := atomic.LoadInt64(&maxSem); m > int64(n) {
 				return Verdict{VSpec, "dial-beyond-concurrency", fmt.Sprintf("%s: %d dials held a slot at the same time", what, m)}
 			}
 			for i, x := range extras {
-				if x.class != "timeout" || x.upstream != accAddr {
-					return Verdict{VSpec, "wait-timeout-wrong-result", fmt.Sprintf("%s: short dial %d returned %s upstream %q after %v, want wrapped ErrDialTimeout for %s", what, i, x.class, x.upstream, x.elapsed, accAddr)}
+				if x.class != "timeout" || x.upstream != accUp {
+					return Verdict{VSpec, "wait-timeout-wrong-result", fmt.Sprintf("%s: short dial %d returned %s upstream %q after %v, want wrapped ErrDialTimeout for %s", what, i, x.class, x.upstream, x.elapsed, accUp)}
 				}
 				if x.elapsed > 120*time.Millisecond+c41Slack {
 					return Verdict{VSpec, "late-return", fmt.Sprintf("%s: short dial %d (timeout 120ms) returned after %v", what, i, x.elapsed)}
 				}
 			}
 			for i, h := range hs {
-				if h.class != "timeout" || h.upstream != hangAddr {
+				if h.class != "timeout" || h.upstream != hangUp {
 					return Verdict{VSpec, "hanging-dial-wrong-error", fmt.Sprintf("%s: hanging dial %d returned %s upstream %q", what, i, h.class, h.upstream)}
 				}
 				if h.elapsed > hold+c41Slack || h.elapsed < hold-10*time.Millisecond {
